@@ -550,6 +550,15 @@ func (c *Ctx) memberRuleFn(g *ssa.Function) (setsOK bool, shapeOK bool) {
 	// an object carrying both one-of members, one of them null, counts as carrying one)
 	ok3, n3 := true, 0
 	forEachInstr(g, func(in ssa.Instruction) {
+		// a presence helper (`has(m, k)` returning the ok of m[k]) is the same test
+		if cl, isC := in.(*ssa.Call); isC {
+			if h := cl.Call.StaticCallee(); h != nil {
+				if si, isMM := c.isMapMembershipFn(h); isMM && si < len(cl.Call.Args) && c.Path(cl.Call.Args[si], nil) == "$0" {
+					n3++
+				}
+			}
+			return
+		}
 		lk, isL := in.(*ssa.Lookup)
 		if !isL || c.Path(lk.X, nil) != "$0" {
 			return
